@@ -134,6 +134,13 @@ def rules_c04(ctx, tab, tag=""):
             ctx.ob("R0" + tag, "row[%s]/returns" % r.label, False, "set_state row does not return normally: %s" % r.outcome,
                    site, trace_of(r.path))
             continue
+        if r.same != 1 and (r.stores or r.all_calls):
+            # "setting the state the animator is already in changes nothing at all": every row that has an effect must
+            # have established that the requested state differs from the current one
+            ctx.ob("R1" + tag, "row[%s]/effects-only-for-a-different-state" % r.label, r.same == 0,
+                   "this row has effects (%d store(s), %d call(s)) without having tested that the requested state differs "
+                   "from the current one - it is also taken when the state is set to itself"
+                   % (len(r.stores), len(r.all_calls)), site, trace_of(r.path), what="same-state-not-excluded")
         if r.same == 1:
             n_same += 1
             ok = not r.stores and not r.all_calls
